@@ -239,16 +239,9 @@ impl<T> Drop for Sender<T> {
 }
 impl<T> Drop for Receiver<T> {
     fn drop(&mut self) {
-        // crossbeam discards queued messages when the last receiver goes away
-        let last = core::chan(self.inner.id, |m| {
-            m.receivers -= 1;
-            m.receivers == 0
-        });
-        if last == Some(true) {
-            let drained: Vec<T> = self.inner.q().drain(..).collect();
-            core::chan(self.inner.id, |m| m.len = 0);
-            drop(drained);
-        }
+        // crossbeam-channel 0.5.17 keeps queued messages (and reports them in `len`) after the
+        // last receiver is gone; they are freed with the channel (found by the conformance run)
+        core::chan(self.inner.id, |m| m.receivers -= 1);
     }
 }
 impl<T> std::fmt::Debug for Sender<T> {
